@@ -111,6 +111,7 @@ class System:
         from oslo_policy import policy as P
         self.P = P
         self.silent_ops = 'silent' in topo
+        self.delete_ops = 'absent' in topo      # the file can vanish again
         self.topo = TOPOLOGIES[topo]
         self.w = world.FileWorld()
         self.shared = shared_defaults(P)
@@ -155,6 +156,8 @@ class System:
                     'e%d:edit' % i]
             if self.silent_ops and self.content[d] is not None:
                 ops.append('e%d:sedit' % i)
+            if self.delete_ops and self.content[d] is not None:
+                ops.append('e%d:del' % i)
             if late and not self.registered[i]:
                 ops.append('e%d:register' % i)
         return ops
@@ -192,6 +195,9 @@ class System:
             for j, (dj, _, _) in enumerate(self.topo):
                 if dj == d:
                     self.stale_ok[j] = False
+        elif kind == 'del':
+            self.w.delete(rel_of(d))
+            self.content[d] = None
         elif kind == 'sedit':
             nxt = 'x1' if self.content[d] == 'x0' else 'x0'
             with open(self.w.path(rel_of(d)), 'w') as f:
